@@ -172,13 +172,13 @@ def checkLayout (c : Case) : CaseResult := Id.run do
     let kind := match ccs[j]? with | some cc => ccKind cc | none => "?"
     let algo := str "algo"
     let cls := if algo == "fdmf" then "makeFeasible-only"
-               else if (algo == "fdrun" || algo == "fdmfrun") && str "planted" == "1" then "fd-run,planted-unsat"
+               else if (algo == "fdrun" || algo == "fdmfrun") && !reported.isEmpty then "fd-run,over-constrained"
                else "other"
     return { verdict := .specfail s!"unreported-violation[{cls}] cc{j} {kind}: violated by more than 1e-4 and not in the unsatisfiable lists (reported: {reported}; all violated: {bad}; exc={exc})",
              stats := stats }
   | [] =>
     if exc != "none" then
-      return { verdict := .diverge s!"exception escaped the layout call: {exc}", stats := stats }
+      return { verdict := .specfail s!"exception[{str "algo"}]: {exc} escaped the layout call (no constraint violation in the rectangles left behind; reported: {reported})", stats := stats }
     return { verdict := .ok, nontrivial := moved && !ccs.isEmpty, stats := stats }
 
 def checkSizes (c : Case) : CaseResult := Id.run do
